@@ -1001,36 +1001,30 @@ Section LinkRoundTrip.
   Hypothesis mux_name_nonempty : forall v, mux_name v <> [].
   Hypothesis hs_name_nonempty : forall v, hs_name v <> [].
 
-  Lemma binding_roundtrip : forall b, flat_binding b <> None -> binding_unambiguous b ->
+  Lemma binding_roundtrip : forall b, flat_binding b <> None ->
     parse_url_port (port_text itoa (export_port b)) = inl (fst (binding_view b)).
   Proof.
-    intros b Hv Hu. unfold binding_view, export_port, flat_binding in *.
+    intros b Hv. unfold binding_view, export_port, flat_binding in *.
     destruct (Z.eqb (getz (pb_proto b)) C20_TransportUnknown); [congruence|].
-    destruct (is_empty (getb (pb_range b))) eqn:Er; cbn [negb port_text fst].
-    - assert (Hr : getb (pb_range b) = []) by (destruct (getb (pb_range b)); [reflexivity | discriminate]).
-      rewrite Hr in Hv.
-      destruct (Z.eqb (getz (pb_port b)) 0) eqn:E0; cbn [negb] in Hv.
-      + exfalso. apply Hv. reflexivity.
-      + destruct (port_ok (getz (pb_port b))) eqn:Ep; cbn [andb] in Hv; [|congruence].
-        unfold parse_url_port. pose proof Ep as Ep'. unfold port_ok in Ep'.
-        apply andb_true_iff in Ep'. destruct Ep' as [A B]. apply Z.leb_le in A. apply Z.leb_le in B.
-        rewrite itoa_atoi by lia. rewrite Ep. reflexivity.
-    - destruct Hu as [Hu|Hu]; [|rewrite Hu in Er; discriminate].
-      rewrite Hu in Hv. cbn [Z.eqb negb] in Hv.
-      destruct (parse_port_range (getb (pb_range b))) as [[a z]|] eqn:Ep; [|congruence].
+    destruct (Z.eqb (getz (pb_port b)) 0) eqn:E0; cbn [negb port_text fst] in *.
+    - destruct (parse_port_range (getb (pb_range b))) as [[a z]|] eqn:Ep; [|congruence].
       apply range_url. exact Ep.
+    - destruct (port_ok (getz (pb_port b))) eqn:Ep; cbn [andb] in Hv; [|congruence].
+      unfold parse_url_port. pose proof Ep as Ep'. unfold port_ok in Ep'.
+      apply andb_true_iff in Ep'. destruct Ep' as [A B]. apply Z.leb_le in A. apply Z.leb_le in B.
+      rewrite itoa_atoi by lia. rewrite Ep. reflexivity.
   Qed.
 
   Lemma ports_roundtrip : forall bs pre acc,
-    Forall (fun b => flat_binding b <> None /\ binding_unambiguous b) bs ->
+    Forall (fun b => flat_binding b <> None) bs ->
     parse_url_ports (length pre) (map (port_text itoa) (map export_port bs))
                     (pre ++ map (fun b => getz (pb_proto b)) bs) acc =
     Ok (rev acc ++ map binding_view bs).
   Proof.
     induction bs as [|b t IH]; intros pre acc Hall; cbn [map parse_url_ports].
     - rewrite app_nil_r. reflexivity.
-    - inversion Hall as [|? ? [Hv Hu] Ht]; subst.
-      rewrite (binding_roundtrip b Hv Hu).
+    - inversion Hall as [|? ? Hv Ht]; subst.
+      rewrite (binding_roundtrip b Hv).
       rewrite nth_error_app2 by lia. rewrite Nat.sub_diag. cbn [nth_error].
       replace (S (length pre)) with (length (pre ++ [getz (pb_proto b)])) by (rewrite app_length; simpl; lia).
       replace (pre ++ getz (pb_proto b) :: map (fun b0 => getz (pb_proto b0)) t)
@@ -1048,15 +1042,14 @@ Section LinkRoundTrip.
   Lemma is_empty_false : forall x : bytes, is_empty x = false <-> x <> [].
   Proof. intros [|a l]; simpl; split; intro Hh; congruence. Qed.
 
-  (* for every validated profile, every server of it and unambiguous bindings: if the exporter produces a link,
-     the importer returns exactly the part of the profile a link carries *)
+  (* for every validated profile and every server of it: if the exporter produces a link, the importer returns
+     exactly the part of the profile a link carries *)
   Theorem link_roundtrip : forall p s f,
     validate_profile p = 0%N -> In s (p_servers p) ->
-    Forall binding_unambiguous (se_bindings s) ->
     export_server p s = Some f ->
     simple_link (link_as_parsed itoa b64 mux_name hs_name f) = Ok (simple_view p s f).
   Proof.
-    intros p s f Hv Hin Hun He.
+    intros p s f Hv Hin He.
     (* facts from validation *)
     unfold validate_profile in Hv.
     destruct (is_empty (pname p)) eqn:En; [discriminate|].
@@ -1076,7 +1069,7 @@ Section LinkRoundTrip.
     destruct (is_empty_list (se_bindings s)) eqn:Eb; [discriminate|].
     destruct (flat_ok (se_bindings s)) eqn:Ef; cbn [negb] in Es; [|discriminate]. clear Es.
     (* the exported fields *)
-    unfold export_server in He. rewrite En, Eu in He. cbn [orb] in He.
+    unfold export_server, export_server_with in He. rewrite En, Eu in He. cbn [orb] in He.
     destruct (is_empty (getb (u_pw (puser p)))) eqn:Epw; [discriminate|].
     destruct (if negb (is_empty (se_domain s)) then Some (se_domain s, se_domain_is_ip s)
               else if negb (is_empty (se_ip s)) then Some (se_ip s, se_ip_ok s) else None)
@@ -1121,9 +1114,7 @@ Section LinkRoundTrip.
     pose proof (ports_roundtrip (se_bindings s) [] []) as Hp. cbn [length app rev] in Hp.
     change (fun x : bytes + Z => match x with inl r => r | inr n => itoa n end) with (port_text itoa).
     rewrite Hp.
-    2:{ apply Forall_forall. intros b Hb. split.
-        - pose proof (flat_ok_forall _ Ef) as Hf. rewrite Forall_forall in Hf. auto.
-        - rewrite Forall_forall in Hun. auto. }
+    2:{ apply flat_ok_forall. exact Ef. }
     f_equal. f_equal.
     - destruct (p_mux p) as [v|]; cbn [getz is_empty]; [|reflexivity].
       destruct (mux_name v) eqn:E; [exfalso; eapply mux_name_nonempty; exact E | reflexivity].
@@ -1133,17 +1124,24 @@ Section LinkRoundTrip.
   Qed.
 End LinkRoundTrip.
 
-(* without the premise on bindings the round trip can fail for a VALIDATED profile: a binding with both a port
-   and a (garbage) port range is accepted by FlatPortBindings (it looks at the port) but exported by its range *)
+(* the exporter of the pinned commit (range text whenever there is one) failed on a VALIDATED profile: a binding
+   with both a port and a (garbage) port range is accepted by FlatPortBindings (it looks at the port) but was
+   exported by its range *)
 Definition ex_ambiguous_profile : profile :=
   mkProfile (Some [112]%N) (Some (mkUser (Some [117]%N) (Some [120]%N) None [] []))
-            [mkEp [49]%N true [] false [mkPB (Some 5%Z) (Some 2%Z) (Some [120]%N)]] None None None None None [].
-Theorem link_roundtrip_ambiguous_binding_fails :
+            [mkEp [49]%N true [] false [mkPB (Some 2012%Z) (Some 2%Z) (Some [120]%N)]] None None None None None [].
+Theorem link_roundtrip_v0_ambiguous_binding_fails :
   validate_profile ex_ambiguous_profile = 0%N /\
-  exists s f, In s (p_servers ex_ambiguous_profile) /\ export_server ex_ambiguous_profile s = Some f /\
+  exists s f, In s (p_servers ex_ambiguous_profile) /\ export_server_v0 ex_ambiguous_profile s = Some f /\
     forall itoa b64 mn hn, simple_link (link_as_parsed itoa b64 mn hn f) = Err 14.
 Proof.
   split; [vm_compute; reflexivity|].
   eexists. eexists. split; [left; reflexivity|]. split; [vm_compute; reflexivity|].
   intros. vm_compute. reflexivity.
 Qed.
+
+(* and the same profile through the fixed exporter (non-vacuity of link_roundtrip) *)
+Example ex_ambiguous_now_exports_port :
+  exists f, export_server ex_ambiguous_profile (mkEp [49]%N true [] false [mkPB (Some 2012%Z) (Some 2%Z) (Some [120]%N)]) = Some f /\
+            lf_ports f = [inr 2012%Z].
+Proof. eexists. split; vm_compute; reflexivity. Qed.
